@@ -457,6 +457,11 @@ func (r *Runner) do(op Op) {
 			if agreedBefore && lsup && (sok != lfound || (sok && sv != lv)) {
 				r.bad("C12", "memory-store-agreement", "release-failed-delete", "after failed store delete during Release(%s) (err=%v): memory has (%v,%v) store has (%v,%v)", op.Sub, err, lv, lfound, sv, sok)
 			}
+			if pv, had := r.model.held(op.Sub); had && err != nil && lsup && !lfound && sok {
+				// the caller was told the release failed and the store still records the assignment, yet the
+				// implementation has forgotten it: the address is free to go to somebody else while its holder keeps it
+				r.bad("C01", "idempotent-reask", "holder-dropped-on-failed-release", "Release(%s) by the holder of %v returned an error (%v) and the store keeps the record (%v), but the implementation no longer knows the assignment", op.Sub, pv, err, sv)
+			}
 			if lsup && !lfound {
 				r.model.drop(op.Sub)
 			}
